@@ -4,7 +4,7 @@ import abi_common as A
 
 def classify(m, verdict):
     tag = verdict.split(" ")[1] if " " in verdict else verdict
-    if tag.startswith("param-record-frees=0") and m["variant"] in ("GuestExportAsync", "GuestExportAsyncStackful") \
+    if tag.startswith("param-record-frees=0") and m["variant"] in ("GuestExport", "GuestExportAsync", "GuestExportAsyncStackful") \
             and m["dir"] == "lift" and m["async"] == "async":
         return ("async-export-indirect-params-not-freed",
                 "async export with indirect parameters never frees the caller-allocated parameter record")
@@ -16,7 +16,7 @@ def run(c):
               "20 parameters) + boundary corpus (16/17 parameters, 4/5 async parameters, 1/2 flat results, methods): "
               "wasm_signature for 5 variants; Generator::call tree for 5 variants x 2 directions x sync/async x 2 canonical-list "
               "rules. Monitor checkCall on the REAL glue tree with seeded argument/result values at ptr 4 and 8 for the "
-              "combinations backends use (import-lower-sync, export-lift-sync, export-lift-async) and their host-side duals. "
+              "combinations backends use (import-lower-sync, export-lift-sync, export-lift-async, C#'s GuestExport-lift-async) and their host-side duals. "
               "non-trivial = function with a structured parameter or result; distinct by request text")
     model, exe = A.setup(c, "Witverif.Props.C02")
     if not exe: return
@@ -41,7 +41,7 @@ def run(c):
         c.sample({"request": k, "impl": v[:500]})
     c.cov["search"] = "Lean monitor checkCall on the real glue trees (call/return counts, canonical arguments, canonical results, parameter-record frees)"
     c.cov["partial_obligations"] = [
-        "glue theorems cover functions passed entirely flat with memory-free types; indirect parameters, return areas, async glue (task.return), list-bearing types and free_once: open as theorems; enforced by the checkCall monitor on the real trees",
+        "proved glue theorems: flat/memory-free import and export, export with indirect parameters (any types; record freed once with canonical layout), import with a return area (any result type), import with indirect parameters (any types, no result), async export (flat) with exactly one task.return. Open as theorems (enforced by the checkCall monitor on the real trees): export-side return areas, flat list-bearing parameters, the remaining async combinations, totality of call and its final empty-stack assertion ('no value unconsumed')",
     ]
     c.assumptions += ["wit-parser's wasm_signature is external: modelled (Abi.wasmSignature), compared on every function, and proved equal to the spec's flatten_functype",
                       "values cross CallWasm/CallInterface through scripted callee results (the callee side is the spec)"]
